@@ -5,7 +5,7 @@ open ArmiVerif ArmiVerif.Proto ArmiVerif.Sym3
 /-
 Stateful line protocol for Model/Sym3.lean.
   init FULL NEXT FLAG [[id,i,j,src,orient,[geo..],[par..]],...]   -> canonical state
-  convert | restore | addEdge | removeEdge                        -> canonical state (restore: ` raised` appended when it raises;
+  convert | restore | addEdge | removeEdge                        -> canonical state (
                                                                      convert: `reject` when a Core.add would find its cell occupied)
   geo K        -> [geoTotal 0, ..., geoTotal (K-1)]
   par K        -> [parTotal 0, ..., parTotal (K-1)]
@@ -43,9 +43,7 @@ def stepLine (s : State) : List String → State × String
     | _, _, _, _ => (s, "bad-op")
   | ["convert"] =>
     if convertCollides s then (s, "reject") else let s' := convert s; (s', showState s')
-  | ["restore"] =>
-    let r := restore s
-    (r.1, showState r.1 ++ (if r.2 then " raised" else ""))
+  | ["restore"] => let s' := restore s; (s', showState s')
   | ["addEdge"] => let s' := addEdge s; (s', showState s')
   | ["removeEdge"] => let s' := removeEdge s; (s', showState s')
   | ["geo", k] => match parseNat? k with
